@@ -200,13 +200,36 @@ Proof.
       * split; auto. unf. unfold in_screenc. lia.
 Qed.
 
-Lemma wrap_scroll_geom ok s : width (wrap_scroll ok s) = width s /\ height (wrap_scroll ok s) = height s /\
-  top (wrap_scroll ok s) = top s /\ bot (wrap_scroll ok s) = bot s /\ act (wrap_scroll ok s) = act s /\
-  barvis (wrap_scroll ok s) = barvis s /\ modenr (wrap_scroll ok s) = modenr s /\ csw (wrap_scroll ok s) = csw s
-  /\ ovf (wrap_scroll ok s) = ovf s.
+Definition same_env (s s' : st) : Prop :=
+  width s' = width s /\ height s' = height s /\ top s' = top s /\ bot s' = bot s /\ act s' = act s /\
+  barvis s' = barvis s /\ modenr s' = modenr s /\ csw s' = csw s.
+
+Lemma same_env_refl s : same_env s s.
+Proof. repeat split; reflexivity. Qed.
+Lemma same_env_trans s1 s2 s3 : same_env s1 s2 -> same_env s2 s3 -> same_env s1 s3.
+Proof. unfold same_env. intros (?&?&?&?&?&?&?&?) (?&?&?&?&?&?&?&?). repeat split; congruence. Qed.
+
+Lemma scroll_env s : same_env s (scroll s) /\ ovf (scroll s) = ovf s.
+Proof. pose proof (scroll_ctl s) as (?&?&?&?&?&?&?&?&?&?&?). repeat split; auto. Qed.
+
+Lemma wrap_scroll_env ok s : same_env s (wrap_scroll ok s) /\ ovf (wrap_scroll ok s) = ovf s.
 Proof.
-  unfold wrap_scroll, scroll, b_scroll_up. setters. proj.
-  repeat (dif; proj); repeat split; reflexivity.
+  unfold wrap_scroll. destruct (bra s && (row s =? height s)).
+  - setters. proj. repeat split; reflexivity.
+  - cbv zeta.
+    match goal with |- context [row ?x >? bot ?x] => set (s2 := x) end.
+    assert (H2 : same_env s s2 /\ ovf s2 = ovf s).
+    { unfold s2. setters. proj. repeat dif; proj; repeat split; reflexivity. }
+    destruct H2 as [H2 O2].
+    destruct (row s2 >? bot s2).
+    + destruct ok.
+      * destruct (scroll_env s2) as [H3 O3]. split.
+        -- eapply same_env_trans; [exact H2|]. eapply same_env_trans; [exact H3|].
+           setters. proj. repeat split; reflexivity.
+        -- setters. proj. congruence.
+      * split; [eapply same_env_trans; [exact H2|]|]; setters; proj; auto. repeat split; reflexivity.
+    + destruct (row s2 <? top s2); [|auto].
+      split; [eapply same_env_trans; [exact H2|]|]; setters; proj; auto. repeat split; reflexivity.
 Qed.
 
 Lemma set_pos_INV s r c ok : GG s -> 0 <= c <= width s + 1 -> INV (set_pos s r c ok).
@@ -216,13 +239,10 @@ Proof.
   - setters. dif; proj; lia.
 Qed.
 
-Lemma set_pos_geom s r c ok : width (set_pos s r c ok) = width s /\ height (set_pos s r c ok) = height s /\
-  top (set_pos s r c ok) = top s /\ bot (set_pos s r c ok) = bot s /\ act (set_pos s r c ok) = act s /\
-  barvis (set_pos s r c ok) = barvis s /\ modenr (set_pos s r c ok) = modenr s /\ csw (set_pos s r c ok) = csw s.
+Lemma set_pos_env s r c ok : same_env s (set_pos s r c ok).
 Proof.
-  unfold set_pos. pose proof (wrap_scroll_geom ok (set_rc (if c <? width s then set_ovf s false else s) r c))
-    as (?&?&?&?&?&?&?&?&?).
-  setters. destruct (c <? width s); proj; repeat split; auto.
+  unfold set_pos. eapply same_env_trans; [|apply wrap_scroll_env].
+  setters. destruct (c <? width s); proj; repeat split; reflexivity.
 Qed.
 
 (* ---- write_char *)
@@ -425,7 +445,7 @@ Proof.
     - split; [|setters; proj; auto]. split; [|revert Hgr; unf; setters; proj; auto].
       unf. unfold geom_okc. setters. proj. repeat split; try lia. }
   destruct H2 as (H2 & K1 & K2 & K3 & K4).
-  pose proof (set_pos_geom s2 (top s2) 1 true) as (P1&P2&P3&P4&P5&P6&P7&P8).
+  pose proof (set_pos_env s2 (top s2) 1 true) as (P1&P2&P3&P4&P5&P6&P7&P8).
   split; [apply set_pos_INV; auto; destruct H2 as [(?&?&?) _]; lia|].
   repeat split; congruence.
 Qed.
